@@ -267,6 +267,19 @@ def run(ctx):
                         ctx.violation("composite/rotated/%s" % kind, {"n": n, "angles": ang})
                     else:
                         ctx.trace_ok()
+                        # the result of a turn (or of a turn and a shift) turned again: still rigid, about its centroid
+                        ang2 = [rng.uniform(-4, 4) for _ in range(3)]
+                        shift = np.array([rng.uniform(-2, 2) for _ in range(3)])
+                        for label, mid, cmid in (("turn_turn", rot, cr), ("turn_shift_turn", rot.translated(shift), cr + shift)):
+                            rot2 = mid.rotated(*ang2)
+                            c2 = np.array([s_.center for s_ in rot2.scatterers], dtype=float)
+                            com2 = cmid.mean(0)
+                            want2 = com2 + (cmid - com2) @ (Rz(ang2[2]) @ Ry(ang2[1]) @ Rz(ang2[0])).T
+                            ctx.case(("rotate_again", label, kind, n, tuple(net)), nontrivial=n > 1)
+                            if np.max(np.abs(c2 - want2)) > 1e-11:
+                                ctx.violation("composite/rotated_again/%s" % label, {"n": n, "kind": kind, "defect": float(np.max(np.abs(c2 - want2)))})
+                            else:
+                                ctx.trace_ok()
                 except AttributeError as ex:
                     if kind == "Scatterers" and n > 1 and "rotated" in str(ex):
                         ctx.violation("composite/rotated/non_sphere_member",
